@@ -31,13 +31,18 @@ MAX_TASK_AGE = 600
 
 
 async def interval_runner(delay: float, interval: float, interval_task: Callable,
-                          *args: Any) -> None:  # noqa: ANN401
+                          *args: Any, stop: Callable[[], bool] | None = None) -> None:  # noqa: ANN401
     """
     Low-level scheduler for tasks that are supposed to run at a given interval.
+
+    :param stop: if given, no further round is started once this returns True (the task itself may have shut down
+                 its manager, in which case its own cancellation is spent on waiting for that shutdown).
     """
     await sleep(delay)
     while True:
         await interval_task(*args)
+        if stop is not None and stop():
+            return
         await sleep(interval)
 
 
@@ -168,7 +173,8 @@ class TaskManager:
                 if interval:
                     # The default delay for looping calls is the same as the interval
                     delay = interval if delay is None else delay
-                    user_task = ensure_future(interval_runner(delay, interval, user_task, *args))
+                    user_task = ensure_future(interval_runner(delay, interval, user_task, *args,
+                                                              stop=lambda: self._shutdown))
                 elif delay:
                     user_task = ensure_future(delay_runner(delay, user_task, *args))
                 else:
